@@ -160,6 +160,9 @@ def _injections(cat, req_handles, n):
     }
     if ctx_descr:
         inj['ctx_new'] = {'op': 'context', 'sub': 'new_assoc', 'descr': ctx_descr[0], 'new_handle': f'injctx_{n}', 'iface': 'classic'}
+    if ctx_descr:
+        # the context descriptor is re-versioned without touching its states (they are re-versioned implicitly)
+        inj['ctx_descr_update'] = {'op': 'descr_update', 'handles': ctx_descr[:1], 'iface': 'classic'}
     if req_handles and any(h in metrics for h in req_handles):
         # the requested descriptor disappears while the request is in progress (it is re-created after the run)
         inj['descr_delete_requested'] = {'op': 'descr_delete', 'handle': req_metric[0], 'iface': 'classic'}
